@@ -324,9 +324,10 @@ def decSet (decomp : Int → Bytes → Option Bytes) (innerOK : Bytes → Bool) 
       match decBlock decomp innerOK bs with
       | none =>
         if truncatedBlock bs then
+          -- lengthField.decode has consumed offset and length (12 bytes) when it reports the shortage
           (match getInt 8 bs with
-           | some (-1, _) => some ⟨[], false, true, []⟩
-           | _ => some ⟨[], true, false, []⟩)
+           | some (-1, _) => some ⟨[], false, true, bs.drop 12⟩
+           | _ => some ⟨[], true, false, bs.drop 12⟩)
         else none
       | some (b, rest) =>
         match decSet decomp innerOK fuel rest with
